@@ -440,6 +440,66 @@ def streams(ck, name, family, scale=1, faults=False, maxstream=4, sizes="1,2,3",
     return st
 
 
+def steps(ck, name, scale=1, mks=("std", "lf", "ll"), shards=NCPU):
+    """B3 for the search loop: the steps hook H5 records for every non-overlapping search
+    (transition offsets, prefilter answers) are checked by TLC (TraceSearch.tla): property-level
+    rules on the events (REJECT) and a replay through ACSearch's actions (DRIFT if it cannot follow)."""
+    wd = workdir("steps_" + name)
+    prefix = os.path.join(wd, "trace")
+    st = run_harness(["steps", "--out", prefix, "--shards", shards, "--seed", seed(), "--scale", scale,
+                      "--mks", ",".join(mks)])
+    jobs, files, nlines = [], [], []
+    for i in range(shards):
+        f = "%s.%d.ndjson" % (prefix, i)
+        n = count_lines(f)
+        if n == 0:
+            continue
+        files.append(f)
+        nlines.append(n)
+        jobs.append(dict(module="TraceSearch", cfg=os.path.join(SPEC, "TraceSearch.cfg"),
+                         name="steps_%s_%d" % (name, i), env={"TRACE": f}, workers=2, timeout=3000, xmx="3g"))
+    results = tlc_many(jobs, parallel=NCPU)
+    nrej = ndrift = 0
+    for f, n, res in zip(files, nlines, results):
+        ck.add_tlc(res)
+        if res.violated:
+            lines = res.out.splitlines()
+            idx = next((i for i, l in enumerate(lines) if l.startswith("Error:")), 0)
+            ck.violation("replaying the recorded steps of real searches through ACSearch violates %s" % res.violated,
+                         {"signature": "steps-invariant:%s" % res.violated, "kind": "steps-trace", "file": f,
+                          "trace": lines[idx:idx + 100]})
+            continue
+        if len({d.get("stripe") for d in res.tagged("DONE")}) != min(16, n):
+            raise ToolError("steps trace %s: not all stripes completed" % f)
+        for r in res.tagged("REJECT"):
+            nrej += 1
+            if len(ck.violations) + len(ck.known_hits) > 100:
+                continue
+            ev = read_ndjson_line(f, r["line"])
+            c = read_ndjson_line(f, ev["c"])
+            ctx = c["ctx"]
+            sig = "steps:%s:%s" % (json.dumps(ctx), json.dumps([ev["hay"], ev["s"], ev["e"], ev["an"], ev["early"]]))
+            ck.violation("search on %s (%s, ci=%s, prefilter=%s, pats=%s) hay=%s span=%s..%s anchored=%s earliest=%s: %s"
+                         % (ctx["repr"], ctx["mk"], ctx["ci"], c["pfi"].get("variant"), ctx["pats"], ev["hay"],
+                            ev["s"], ev["e"], ev["an"], ev["early"], r["why"]),
+                         {"signature": sig, "kind": "search-steps", "ctx": ctx, "run": ev, "why": r["why"]})
+        for d in res.tagged("DRIFT"):
+            ndrift += 1
+            if len(ck.drift) < 50:
+                ev = read_ndjson_line(f, d["line"])
+                ck.drift.append({"why": d["why"], "ctx": read_ndjson_line(f, ev["c"])["ctx"],
+                                 "run": {k: ev.get(k) for k in ("hay", "s", "e", "an", "early", "ops", "res")}})
+    ck.traces += st.get("events", 0)
+    ck.evaluations += st.get("events", 0)
+    ck.distinct += distinct_lines(files, ("c",))
+    ck.stage("B3-search-steps", scale=scale, contexts=st.get("contexts"), runs=st.get("events"),
+             rejected=nrej, step_drift=ndrift, replay_states=sum(r.distinct for r in results),
+             wall=round(max([r.wall for r in results] or [0]), 1))
+    if files and nlines[0] >= 40:
+        ck.sample(read_ndjson_line(files[0], 40))
+    return st
+
+
 def validate_call_files(ck, name, files, what):
     """TraceCalls over already written files (shared by guard / threads / ids)."""
     jobs, nlines, fs = [], [], []
